@@ -101,6 +101,19 @@ def run(prog, rep, tier):
             msg = 'self.src.seek(Start(entry(filename).eof_offset)) succeeds before the EndOfFile block is parsed' if ok else \
                 'get_hash does not seek to the eof_offset of the requested name before reading (pos=%s entry=%s src=%s dominated=%s)' % (okpos, okent, oksrc, okdom)
         rep.ob('R10.1', ok, 'R10.1|%s|seek-before-first-read' % gh.nkey, msg, gh.loc())
+        # "asking for hashes gives the same hash as on a fresh reader": the hash handed out is the one of the EndOfFile block parsed in this call, never a value
+        # remembered from an earlier operation
+        if len(reads) == 1:
+            somes = [(bl.idx, i, st) for bl in gh.blocks if not bl.cleanup for i, st in enumerate(bl.stmts)
+                     if st.kind == 'assign' and st.rv.r == 'aggregate' and st.rv.j.get('variant') == 'Some' and st.rv.ops and st.rv.ops[0].place is not None
+                     and gh.lty(st.rv.ops[0].place[0]).startswith('[u8; 32]') or
+                     (st.kind == 'assign' and st.rv.r == 'aggregate' and st.rv.j.get('variant') == 'Some' and st.rv.ops and st.rv.ops[0].place is not None and '[u8; 32]' in gh.lty(st.place[0]))]
+            stale = [gh.loc(bb, i) for (bb, i, st) in somes
+                     if not must_derive(gh, st.rv.ops[0].place[0], lambda k, ob, b3: k == 'call' and b3 == reads[0].idx, extra_transparent=('branch', 'clone', 'copied'))]
+            rep.ob('R10.1', bool(somes) and not stale, 'R10.1|%s|hash-from-the-block-read-in-this-call' % gh.nkey,
+                   'every hash returned is taken from the EndOfFile block parsed after the seek' if (somes and not stale) else
+                   'get_hash returns a hash that does not come from the EndOfFile block it parses (%s): a value kept from an earlier operation makes the answer depend on what was read before'
+                   % (', '.join(stale) or 'no Some(hash) result found'), gh.loc())
     gf = one_body(prog, rep, 'R10.1', 'mla', adt='ArchiveReader', name='get_file')
     if gf is not None:
         news = [b for b in gf.calls() if cnorm(b.term) == 'BlocksToFileReader::new']
